@@ -240,7 +240,10 @@ func (m *Message) tryCompressPayload(enableCompression bool) error {
 		return buf.Err
 	}
 	compressedPayload := buf.Bytes()
-	if m.Flags&Compressed == 0 && enableCompression {
+	// The payload is always serialized anew, so the flag must describe this
+	// encoding, not the previous one (or the one the message was decoded from).
+	m.Flags &^= Compressed
+	if enableCompression {
 		switch m.Payload.(type) {
 		case *payload.Headers, *payload.MerkleBlock, payload.NullPayload,
 			*payload.Inventory, *payload.MPTInventory:
